@@ -289,8 +289,60 @@ func cmdC07Reader(o opts) {
 	}
 	long = append(long, alpha[len(alpha)-4]...)
 	longRes := runStream(long, -1, "eof", []int{977}, false, streamCfg{key: key, bufSize: 512})
+	// the window is a matter of signature timestamps alone, whatever the frames carry: a frame of message id X whose
+	// payload is full of plausible timestamps 30 s ahead (little-endian, 8-byte aligned), then frames 5 s older, equal and
+	// newer than its signature timestamp - all four are accepted. X over ids with a meaning for signing or framing
+	// (256 SETUP_SIGNING, 0, 255/256/257, 65535/65536, 2^24-1) and seeded others; thorough: every id of every shipped dialect
+	sign := func(j FrameJ) []byte {
+		b := frameBytes(j)
+		h := sha256.New()
+		h.Write(vecs[0].Key)
+		h.Write(b[:len(b)-6])
+		copy(b[len(b)-6:], h.Sum(nil)[:6])
+		return b
+	}
+	ids := []int{0, 1, 66, 255, 256, 257, 65535, 65536, 0xFFFFFF}
+	for i := 0; i < 6; i++ {
+		ids = append(ids, r.Intn(1<<24))
+	}
+	if thorough {
+		seen := map[int]bool{}
+		for _, m := range allProtos() {
+			if !seen[int(m.GetID())] {
+				seen[int(m.GetID())] = true
+				ids = append(ids, int(m.GetID()))
+			}
+		}
+	}
+	type contentRun struct {
+		id   int
+		data []byte
+		res  []ResJ
+	}
+	var contentRuns []contentRun
+	for n, id := range ids {
+		t0 := uint64(1)<<40 + uint64(n)*7
+		ahead := le(t0+3000000, 8)
+		var pl B
+		for k := 0; k < 1+n%4; k++ {
+			pl = append(pl, ahead...)
+		}
+		mk := func(id int, pl B, ts uint64, seq int) []byte {
+			return sign(FrameJ{V: 2, IFlag: 1, Seq: seq, Sys: 4, Comp: 190, ID: id, Payload: pl, Ck: 4660, Link: 52, Ts: le(ts, 6), Sig: B{0, 0, 0, 0, 0, 0}})
+		}
+		var data []byte
+		data = append(data, mk(id, pl, t0, 1)...)
+		data = append(data, mk(30003, B{1, 2, 3}, t0-500000, 2)...)
+		data = append(data, mk(30003, B{1, 2, 4}, t0, 3)...)
+		data = append(data, mk(id, pl, t0+1, 4)...)
+		contentRuns = append(contentRuns, contentRun{id, data, runStream(data, -1, "eof", []int{61}, false, streamCfg{key: key, bufSize: 512})})
+	}
 	defer func() {
 		<-pacedDone
+		for n, c := range contentRuns {
+			rec.Put(M{"e": "STREAM", "g": 1<<30 + 2 + n, "in": B(c.data), "errat": -1, "errkind": "eof", "sched": []int{61}, "with_data": false,
+				"dl": []int{}, "key": vecs[0].Key, "results": c.res, "clean": false, "tag": "win_whatever_the_frames_carry", "complete": true, "buf": 512})
+		}
 		rec.Put(M{"e": "STREAM", "g": 1<<30 + 1, "in": B(long), "errat": -1, "errkind": "eof", "sched": []int{977}, "with_data": false,
 			"dl": []int{}, "key": vecs[0].Key, "results": longRes, "clean": false, "tag": "win_long_run_of_old_frames", "complete": true, "buf": 512})
 		rec.Put(M{"e": "STREAM", "g": 1 << 30, "in": B(pacedData), "errat": -1, "errkind": "eof", "sched": []int{}, "with_data": false,
